@@ -61,8 +61,8 @@ AppsOK(t, sess, c) ==
   /\ \A e1, e2 \in t.apps : e1 # e2 => e1.app # e2.app
   /\ \A e \in t.apps : e.app # 0
 
-\* FARs that send to a GTP peer
-Tunnels(s) == {f \in RangeOf(s.fars) : f.ohc /\ HasBit(f.action, ActFORW) /\ f.dst = "access" /\ f.teid # Zero32}
+\* FARs that send to a GTP peer (an Update FAR that does not repeat the Destination Interface reads as 0 = Access)
+Tunnels(s) == {f \in RangeOf(s.fars) : f.ohc /\ HasBit(f.action, ActFORW) /\ f.dst \in {"access", "none"} /\ f.teid # Zero32}
 LivePeers(sess) == UNION {{f.peer : f \in Tunnels(sess[u])} : u \in DOMAIN sess}
 PeerEntries(t, a, c) == {e \in t.peers : e.dst = a /\ e.src = c.n3 /\ e.sport = GtpuPort}
 PeersOK(t, sess, c) ==
